@@ -25,10 +25,11 @@ type c20Case struct {
 	ISN        uint32 `json:"isn"`
 	SynAckUs   int64  `json:"synack_us"`
 	HTTP       bool   `json:"http,omitempty"`
+	PortInHost bool   `json:"port_in_host,omitempty"` // the target's port is written in the target literal, Port differs
 }
 
 func (c *c20Case) request() *Request {
-	rq := &Request{HTTP: c.HTTP, SackSrv: true}
+	rq := &Request{HTTP: c.HTTP, SackSrv: true, SackPortInHost: c.PortInHost}
 	rq.P = ReqParams{Hostname: "127.33.7.9", Protocol: "tcp", TCPMethod: c.Method, MinTTL: c.MinTTL, MaxTTL: c.MaxTTL, DelayMs: 1, TimeoutMs: c.TimeoutMs, Queries: 1, E2e: c.E2e}
 	destKind := "sack"
 	rq.Sack = SackCfg{Permit: true, TS: c.Capability == "ok-ts", ClientNxt: c.ISN, ServerISN: 77, SynAckUs: c.SynAckUs}
@@ -243,7 +244,7 @@ func TestC20Table(t *testing.T) {
 }
 
 func TestC20(t *testing.T) {
-	rec := NewRecorder("C20", "C20", "rapid: the same dimensions with drawn TTL ranges, timeouts, ISNs, handshake latencies, fault call indices (k-th send/read) and library vs HTTP entry; same oracle")
+	rec := NewRecorder("C20", "C20", "rapid: the same dimensions with drawn TTL ranges, timeouts, ISNs, handshake latencies, fault call indices (k-th send/read), library vs HTTP entry, and the target's port given as the Port parameter or inside the target literal (with a Port parameter that names another, closed port); same oracle")
 	RunProp(t, rec, func(rt *rapid.T) *c20Case {
 		c := &c20Case{}
 		c.Method = oneOf(rt, "method", "", "syn", "sack", "sack", "prefer_sack", "prefer_sack", "prefer_sack", "SACK", "x")
@@ -260,6 +261,7 @@ func TestC20(t *testing.T) {
 		c.ISN = oneOf(rt, "isn", uint32(0), 1, 0x7fffffff, 0xffffff00, 0xffffffff)
 		c.SynAckUs = oneOf(rt, "synack_us", int64(0), 100, 3000)
 		c.HTTP = c.MinTTL == 1 && rapid.Bool().Draw(rt, "http")
+		c.PortInHost = oneOf(rt, "port_in_host", false, false, true)
 		return c
 	}, checkC20)
 }
